@@ -1746,7 +1746,13 @@ static void voronoi_case(uint64_t caseid, vh::Rng r, int64_t nloc, int64_t nrays
         const CV gd = gen[j] - gen[c];
         const double gl = gd.norm();
         const double off = dot(fm - 0.5 * (gen[c] + gen[j]), gd) / gl;
-        if (std::fabs(off) > gtol) C16_VIOL("voronoi/neighbours/face-off-bisector", caseid, "cells %zu,%zu: face midpoint %.3g off the bisector plane", c, j, off);
+        // old construction: a vertex counts as "on" a cutting plane if |v.p - p.p| <= OLDVORONOI_TOLERANCE |S|^2 (p = half separation
+        // of the two generators), i.e. it may be 2e-10 |S|^2 / (|p|) off the plane; for close generator pairs (clustered sets) this
+        // documented tolerance exceeds the fixed 1e-8 |S| (observed 4.5e-7 for |S| = 35, separation ~1: exactly 2e-10 |S|^2/|p|);
+        // a factor 16 covers the conditioning of the vertex position (three planes), as in the C15 derivation
+        const double S2 = D.side[0] * D.side[0] + D.side[1] * D.side[1] + D.side[2] * D.side[2];
+        const double ftol = gtol + (newgrid ? 0. : 16. * 2.e-10 * S2 / (0.5 * gl));
+        if (std::fabs(off) > ftol) C16_VIOL("voronoi/neighbours/face-off-bisector", caseid, "cells %zu,%zu: face midpoint %.3g off the bisector plane (allowed %.3g)", c, j, off, ftol);
         const CV rel = std::get< 4 >(e);
         if (absmax3(rel - gd) > gtol)
           C16_VIOL("voronoi/neighbours/relative-position", caseid,
